@@ -44,6 +44,9 @@ def one(rng, crop, soil, method, i):
     c = gen.crop_spec(rng, name=crop, flags=True, harvest_early=gen.chance(rng, 0.1))
     if gen.chance(rng, 0.15):
         c["kw"]["CropType"] = int(gen.pick(rng, [1, 2, 3])) if cat[crop]["CropType"] != 3 else cat[crop]["CropType"]
+    if not thermal and gen.chance(rng, 0.04):
+        c["kw"]["SwitchGDD"] = 1        # documented switch: convert the calendar-day crop to thermal time
+        c["harvest"] = None
     w = gen.weather_spec(rng, crop, hostile=gen.chance(rng, 0.3), p_file=0.35)
     span = gen.W.file_span(w["name"]) if w["kind"] == "file" else None
     shape = gen.pick(rng, ["after", "after", "mid", "anniv", "long", "feb29"])
@@ -137,12 +140,55 @@ def features(spec, res):
     dz = spec["soil"].get("kw", {}).get("dz")
     zmax = float(common.crop_catalogue()[spec["crop"]["name"]]["Zmax"])
     return {
+        "calendar_switched_to_thermal_time": int(spec["crop"].get("kw", {}).get("SwitchGDD", 0)) == 1,
         "no_planting_date_in_window": p >= E0,
         "window_ends_in_first_planting_year": p.year == E0.year,
         "variable_table_first_obs_after_start": bool(gw and gw.get("method") == "Variable" and len(gw["dates"]) > 1
                                                      and S.d(sorted(gw["dates"])[0]) > S0),
         "profile_cannot_reach_max_root_depth": bool(dz and gen.reachable_depth(dz) < zmax + 0.1),
     }
+
+
+def ref_gdd(method, tupp, tbase, tmax, tmin):
+    """Independent daily growing degree days (the three documented methods), vectorised."""
+    tmax, tmin = np.asarray(tmax, float), np.asarray(tmin, float)
+    if method == 1:
+        return np.clip((tmax + tmin) / 2, tbase, tupp) - tbase
+    if method == 2:
+        return (np.clip(tmax, tbase, tupp) + np.clip(tmin, tbase, tupp)) / 2 - tbase
+    return np.maximum((np.clip(tmax, tbase, tupp) + np.minimum(tmin, tupp)) / 2, tbase) - tbase
+
+
+def rejection_justified(spec, res):
+    """Is a documented growing-degree-day rejection backed by the weather?  True/False, or None
+    when this reference cannot tell (non-thermal crop, calendar switch)."""
+    cat = dict(common.crop_catalogue()[spec["crop"]["name"]])
+    cat.update(spec["crop"].get("kw", {}))
+    if int(cat.get("CalendarType", 1)) != 2 or int(cat.get("SwitchGDD", 0)) == 1:
+        return None
+    w = res.kw["weather_df"]
+    S0, E0 = S.d(spec["start"]), S.d(spec["end"])
+    dates = [x.date() for x in w["Date"]]
+    g = ref_gdd(int(cat.get("GDDmethod", 3)), float(cat["Tupp"]), float(cat["Tbase"]), w["MaxTemp"].to_numpy(), w["MinTemp"].to_numpy())
+    idx = {d_: i for i, d_ in enumerate(dates)}
+    m, d_ = [int(x) for x in spec["crop"]["planting"].split("/")]
+    p = dt.date(S0.year, m, d_)
+    if p < S0:
+        p = dt.date(S0.year + 1, m, d_)
+    mat = float(cat["Maturity"])
+    any_season = False
+    while p < E0:
+        any_season = True
+        a, b = idx.get(p), idx.get(E0)
+        if a is None or b is None:
+            return None
+        cum = np.cumsum(g[a:b + 1])
+        if not cum[-1] > mat * (1 + 1e-9):
+            return True                      # a season really lacks degree days
+        if int(np.argmax(cum > mat)) + 1 >= 364:
+            return True                      # ... or really needs a year or more
+        p = dt.date(p.year + 1, m, d_)
+    return False if any_season else None
 
 
 def run_case(case):
@@ -191,7 +237,21 @@ def run_case(case):
             acc.add("not-finished", "run_model returned but the model does not report itself finished", {}, feats)
         nt = len(tr.steps) >= 20
     elif res.status == "rejected":
-        pass
+        # a documented rejection must also be *justified* by the inputs
+        tname, msg, site, tb = res.exc
+        if tname == "AssertionError":
+            cov["gdd_rejections"] += 1
+            try:
+                just = rejection_justified(spec, res)
+            except Exception as ex:  # noqa: BLE001
+                just = None
+                cov["gdd_rejection_reference_errors"] += 1
+            if just is False:
+                acc.add("unjustified-rejection", f"rejected with '{msg[:90]}' (raised in {site[0]}.{site[1]}), but every "
+                        f"scheduled season has enough growing degree days to mature within a year by an independent count",
+                        dict(message=msg[:200], site=list(site)), dict(feats, exception=tname), site=f"{site[0]}.{site[1]}")
+            elif just:
+                cov["gdd_rejections_justified"] += 1
     elif res.status in ("error", "abort"):
         tname, msg, site, tb = res.exc
         clause = "does-not-terminate" if res.status == "abort" else "undocumented-exception"
